@@ -10,6 +10,15 @@ COLA = os.path.join(REPO, 'cola')
 BUILD = os.path.join(VERIF, 'build') if os.path.realpath(REPO) == '/repo' else \
     os.path.join(VERIF, 'build', 'scratch-' + hashlib.sha256(os.path.realpath(REPO).encode()).hexdigest()[:10])
 COQ = os.path.join(VERIF, 'coq')
+SCRATCH = os.path.realpath(REPO) != '/repo'
+if SCRATCH:
+    # a scratch tree also gets a private copy of the Coq project (Gen/ is regenerated from the scratch sources and
+    # must not disturb checks running against /repo at the same time); .vo files are copied so only what depends
+    # on regenerated files is rebuilt
+    _src = COQ
+    COQ = os.path.join(BUILD, 'coq')
+    os.makedirs(COQ, exist_ok=True)
+    subprocess.run(['rsync', '-a', '--delete', '--exclude', '.lia.cache', '--exclude', '.nia.cache', _src + '/', COQ + '/'], check=False)
 GUARD = 'ADAPTAGRAMS_VERIF'
 NPROC = int(os.environ.get('VERIF_JOBS', '16'))
 
@@ -19,7 +28,7 @@ import fcntl, contextlib
 
 @contextlib.contextmanager
 def flock(name):
-    ld = os.path.join(VERIF, 'build', 'locks') if name == 'coq' else os.path.join(BUILD, 'locks')
+    ld = os.path.join(BUILD, 'locks')
     os.makedirs(ld, exist_ok=True)
     f = open(os.path.join(ld, name + '.lock'), 'w')
     try:
